@@ -329,3 +329,55 @@ func VerifH_C05_SharedPayload() {
 	verifrt.Assert(r0.m.Header.RCode != r1.m.Header.RCode, "each reply reaches exactly one exchange")
 	verifrt.Assert(verifrt.EqBytes(m, orig), "the shared payload is unchanged")
 }
+
+// VerifH_C05_ConcurrentPreemptive: the registration / delivery steps are only atomic as long as each runs under one
+// lock acquisition — which the step harnesses (mechanism A) assume. Here two exchanges race on one connection with a
+// pre-emption possible before every lock and channel operation (≤ 2 deviations from round-robin), UDP or TCP: the two
+// queries leave under distinct wire IDs, the server answers both (in either order), each exchange gets exactly the
+// reply for its own wire ID with the caller's ID restored.
+func VerifH_C05_ConcurrentPreemptive() {
+	verifrt.Unwind(120)
+	verifrt.SchedBound(2)
+	verifrt.PreemptSync()
+	verifrt.NoTimers()
+	verifrt.CtxNoExpiry = true
+	conn := newVNetConn()
+	isTCP := verifrt.Bool("tcp")
+	t := &PipelineTransport{opts: PipelineOpts{IsTCP: isTCP}}
+	c := newPipelineConn(conn, t)
+	cid := []uint16{verifrt.U16("cid1"), verifrt.U16("cid2")}
+	res := []chan vExRes{make(chan vExRes, 1), make(chan vExRes, 1)}
+	for i := 0; i < 2; i++ {
+		i := i
+		go func() { r, err := c.exchange(context.Background(), vQuery12(cid[i], byte(i+1))); res[i] <- vExRes{r, err} }()
+	}
+	off := 0
+	if isTCP {
+		off = 2
+	}
+	wire := []int{-1, -1}
+	for k := 0; k < 2; k++ {
+		q := <-conn.outbox
+		who := int(q[off+3]) - 1
+		verifrt.Assert((who == 0 || who == 1) && wire[who] < 0, "one query per exchange")
+		wire[who] = int(q[off])<<8 | int(q[off+1])
+	}
+	verifrt.Assert(wire[0] != wire[1], "concurrent exchanges get distinct wire IDs")
+	order := []int{0, 1}
+	if verifrt.Bool("swapped") {
+		order = []int{1, 0}
+	}
+	for _, who := range order {
+		b := []byte{byte(wire[who] >> 8), byte(wire[who]), 0x80, byte(who + 1), 0, 0, 0, 0, 0, 0, 0, 0}
+		if isTCP {
+			b = append([]byte{0, 12}, b...)
+		}
+		conn.inbox <- b
+	}
+	for i := 0; i < 2; i++ {
+		r := <-res[i]
+		verifrt.Assert(r.err == nil && r.m != nil, "both exchanges are answered")
+		verifrt.Assert(r.m.Header.ID == cid[i] && int(r.m.Header.RCode) == i+1, "each gets the reply for its own wire ID, caller's ID restored")
+	}
+	verifrt.Reach("both-answered")
+}
